@@ -1383,8 +1383,11 @@ impl<'a> GeneratorState<'a> {
                 self.generate_load_store_statement(&param, code.pos, false)?;
             }
             Statement::Load(e) => {
-                let param = self.generate_expr(e, code.pos, false, false)?;
-                self.generate_load_store_statement(&param, code.pos, true)?;
+                // What the operand reads, this statement reads: none of it may be optimised away
+                self.protected = true;
+                let param = self.generate_expr(e, code.pos, false, false);
+                self.protected = false;
+                self.generate_load_store_statement(&param?, code.pos, true)?;
             }
             Statement::CSleep(s) => {
                 self.generate_csleep_statement(*s, code.pos)?;
